@@ -22,6 +22,7 @@ import (
 const revKey = "pod-template-hash"
 
 var gkVS = schema.GroupKind{Group: "networking.istio.io", Kind: "VirtualService"}
+var gkConfigMap = schema.GroupKind{Group: "", Kind: "ConfigMap"}
 var gkTag = schema.GroupKind{Group: "example.io", Kind: "TrafficTag"}
 var gkDR = schema.GroupKind{Group: "networking.istio.io", Kind: "DestinationRule"}
 
@@ -280,7 +281,7 @@ func (o *trafficOracle) OnWrite(s *Sim, w *Write) {
 	// remember the user's own configuration
 	if w.Actor == "setup" || w.Actor == "user" {
 		switch w.Key.GK {
-		case gkService, gkIngress, gkHTTPRoute, gkVS, gkDR, gkTag:
+		case gkService, gkIngress, gkHTTPRoute, gkVS, gkDR, gkTag, gkConfigMap:
 			if w.New != nil {
 				o.orig[w.Key] = w.New
 			}
